@@ -612,11 +612,25 @@ func (e *Engine) discharge(res *FuncResult, t *tr, body string, opt *Options) {
 	var wg sync.WaitGroup
 	nOpen := 0
 	nRetry := 0
+	gate := make(chan struct{}, 8) // obligations of one function in flight
 	for k := range res.Obls {
 		wg.Add(1)
 		go func(k int) {
 			defer wg.Done()
 			o := res.Obls[k]
+			gate <- struct{}{}
+			defer func() { <-gate }()
+			vmu.Lock()
+			broken := nOpen > 12
+			vmu.Unlock()
+			if broken && !opt.ExpectFail[res.Key+"#"+o.Name] {
+				// more than a dozen obligations of this function are open already: the function is reported anyway, the rest
+				// is not attempted (a broken building block makes every remaining query slow)
+				vmu.Lock()
+				o.Status, o.Solver, o.Note = "unknown", "-", "not attempted: more than 12 obligations of this function are already open"
+				vmu.Unlock()
+				return
+			}
 			if o.Kind == "frame" {
 				st, ms := runSliced(k)
 				vmu.Lock()
